@@ -52,8 +52,8 @@ static Reg r_c19_angle({ "C19.angle", "C19", "rc",
 static SweepInfo c19_angle_sweep(Ctx& ctx, const Clause& cl)
 {
   SweepInfo si; bool thorough = ctx.tier == "thorough";
-  int64_t lo = thorough ? (int64_t)INT32_MIN : -100000, hi = thorough ? (int64_t)INT32_MAX : 100000;
-  si.exhaustive = thorough; si.note = thorough ? "all 2^32 int32 degrees for sin_angle_aprox and cos_angle_aprox" : "all degrees in [-100000, 100000]";
+  int64_t lo = thorough ? (int64_t)INT32_MIN : -4000000, hi = thorough ? (int64_t)INT32_MAX : 4000000;
+  si.exhaustive = thorough; si.note = thorough ? "all 2^32 int32 degrees for sin_angle_aprox and cos_angle_aprox" : "all degrees in [-4000000, 4000000]";
   uint64_t total = (uint64_t)(hi - lo + 1), per = (total + ctx.nworkers - 1) / ctx.nworkers; int64_t s = lo + (int64_t)(per * ctx.worker), e = std::min<int64_t>(hi, s + (int64_t)per - 1);
   for (int64_t d = s; d <= e; ++d) {
     bool bad = false;
@@ -66,7 +66,7 @@ static SweepInfo c19_angle_sweep(Ctx& ctx, const Clause& cl)
   return si;
 }
 static Reg r_c19_angle_sweep({ "C19.anglesweep", "C19", "sweep",
-  "enumeration of int32 degrees for sin_angle_aprox / cos_angle_aprox: [-100000, 100000] in the quick tier, all 2^32 values in the thorough tier; oracle and non-trivial rule as C19.angle (distinct by construction)",
+  "enumeration of int32 degrees for sin_angle_aprox / cos_angle_aprox: [-4000000, 4000000] in the quick tier, all 2^32 values in the thorough tier; oracle and non-trivial rule as C19.angle (distinct by construction)",
   c19_angle_check, 0, nullptr, c19_angle_sweep });
 
 // ================================================================ C19 sqrt_aprox / atan_index_aprox
@@ -86,7 +86,7 @@ static void c19_sqrt_check(Ctx& ctx, const Args& a)
 }
 static SweepInfo c19_sqrt_sweep(Ctx& ctx, const Clause& cl)
 {
-  SweepInfo si; bool thorough = ctx.tier == "thorough"; int exbits = thorough ? 20 : 16; uint64_t per = thorough ? 1000000 : 20000;
+  SweepInfo si; bool thorough = ctx.tier == "thorough"; int exbits = thorough ? 20 : 18; uint64_t per = thorough ? 1000000 : 40000;
   si.note = strf("exhaustive on raw [0, 2^%d); lattice of %llu values per bit length %d..37; binade edges", exbits, (unsigned long long)per, exbits + 1);
   uint64_t idx = 0;
   for (int64_t x = 0; x < ((int64_t)1 << exbits); ++x) if (mine(ctx, ++idx)) ctx.evaluate(cl, { x });
@@ -100,7 +100,7 @@ static SweepInfo c19_sqrt_sweep(Ctx& ctx, const Clause& cl)
   return si;
 }
 static Reg r_c19_sqrt({ "C19.sqrt_aprox", "C19", "sweep",
-  "raw x in [0, 2^37) (2^-16 <= x < 2^21): exhaustive below 2^16 quick / 2^20 thorough, seed-offset lattice and +-4 binade edges per bit length up to 37, plus 0 and negative values; oracle: relative error <= 2%, sqrt_aprox(0) == 0, NaN below 0; non-trivial = binade edge, raw >= 2^20, zero or negative; distinct by construction",
+  "raw x in [0, 2^37) (2^-16 <= x < 2^21): exhaustive below 2^18 quick / 2^20 thorough, seed-offset lattice and +-4 binade edges per bit length up to 37, plus 0 and negative values; oracle: relative error <= 2%, sqrt_aprox(0) == 0, NaN below 0; non-trivial = binade edge, raw >= 2^20, zero or negative; distinct by construction",
   c19_sqrt_check, 0, nullptr, c19_sqrt_sweep });
 
 static void c19_atani_check(Ctx& ctx, const Args& a)
@@ -117,7 +117,7 @@ static void c19_atani_check(Ctx& ctx, const Args& a)
 }
 static SweepInfo c19_atani_sweep(Ctx& ctx, const Clause& cl)
 {
-  SweepInfo si; bool thorough = ctx.tier == "thorough"; int exbits = thorough ? 21 : 17; uint64_t per = thorough ? 500000 : 10000;
+  SweepInfo si; bool thorough = ctx.tier == "thorough"; int exbits = thorough ? 21 : 19; uint64_t per = thorough ? 500000 : 30000;
   si.note = strf("exhaustive on |raw| < 2^%d; lattice of %llu values per bit length %d..47 with both signs; +-16 raw around every tangent-table entry", exbits, (unsigned long long)per, exbits + 1);
   uint64_t idx = 0;
   for (int64_t x = -((int64_t)1 << exbits) + 1; x < ((int64_t)1 << exbits); ++x) if (mine(ctx, ++idx)) ctx.evaluate(cl, { x });
@@ -129,7 +129,7 @@ static SweepInfo c19_atani_sweep(Ctx& ctx, const Clause& cl)
   return si;
 }
 static Reg r_c19_atani({ "C19.atan_index", "C19", "sweep",
-  "raw x with |x| < 2^47: exhaustive on |raw| < 2^17 quick / 2^21 thorough, seed-offset lattice per bit length up to 47 with both signs, and +-16 raw around every tangent-table entry (where the nearest-entry decision flips); oracle: |result - atanl(x)*128/pi| <= 1.25, never NaN; non-trivial = |raw| >= 2^21; distinct by construction",
+  "raw x with |x| < 2^47: exhaustive on |raw| < 2^19 quick / 2^21 thorough, seed-offset lattice per bit length up to 47 with both signs, and +-16 raw around every tangent-table entry (where the nearest-entry decision flips); oracle: |result - atanl(x)*128/pi| <= 1.25, never NaN; non-trivial = |raw| >= 2^21; distinct by construction",
   c19_atani_check, 0, nullptr, c19_atani_sweep });
 
 // ================================================================ C20 angle_to_radians: args = type, n
@@ -157,7 +157,7 @@ static Reg r_c20_a2r({ "C20.a2r", "C20", "rc",
   c20_a2r_check, 10, c20_a2r_decode, nullptr });
 static SweepInfo c20_a2r_sweep(Ctx& ctx, const Clause& cl)
 {
-  SweepInfo si; bool thorough = ctx.tier == "thorough"; uint64_t stride32 = thorough ? 1 : 1021, phase = thorough ? 0 : ctx.seed % stride32;
+  SweepInfo si; bool thorough = ctx.tier == "thorough"; uint64_t stride32 = thorough ? 1 : 127, phase = thorough ? 0 : ctx.seed % stride32;
   si.exhaustive = thorough; si.note = thorough ? "every value of int8/uint8/int16/uint16/int32/uint32" : strf("every value of the 8/16-bit types; int32/uint32 every %llu-th (phase %llu) plus [-1000, 1000]", (unsigned long long)stride32, (unsigned long long)phase);
   uint64_t idx = 0;
   for (int ti = 0; ti < 6; ++ti) {
